@@ -628,6 +628,12 @@ func (r *seqRun) execSimple(t []string) {
 	case "cleanup":
 		c.CleanUp()
 		r.emit("op %s =>", name)
+	case "settle":
+		for i := 0; i < 3; i++ {
+			r.clock.now += 1 << 31
+			c.CleanUp()
+		}
+		r.emit("op %s =>", name)
 	case "bound":
 		c.CleanUp()
 		r.emit("op %s =>", name)
